@@ -181,7 +181,8 @@ fn sorted_ids<const N: usize, S: Src>(s: &mut S) -> [gix_hash::ObjectId; N] {
         let mut raw = [0u8; 20];
         raw[0] = b[0]; raw[1] = b[1]; raw[2] = b[2];
         ids[i] = gix_hash::ObjectId::from(raw);
-        if i > 0 { s.assume(ids[i - 1] < ids[i]); }
+        // strictly ascending; decided by the three varying bytes (avoids a 20-byte memcmp per assumption)
+        if i > 0 { let p = ids[i - 1].as_bytes(); s.assume((p[0], p[1], p[2]) < (b[0], b[1], b[2])); }
         i += 1;
     }
     ids
@@ -202,10 +203,13 @@ fn h_fanout<const N: usize, S: Src>(s: &mut S) {
 /// lookup_prefix agrees with a linear scan: None / unique index / ambiguous, and the candidate range
 fn h_lookup_prefix<const N: usize, const WITH_RANGE: bool, S: Src>(s: &mut S) {
     let ids = sorted_ids::<N, S>(s);
-    let mut fan = [0u32; 256];
-    let mut b = 0usize;
-    while b < 256 { fan[b] = spec_fan(&ids, b as u8); b += 1; }
     let pb: [u8; 3] = s.bytes();
+    // lookup_prefix reads fan[first byte] and fan[first byte - 1] only: those two entries are the documented counts,
+    // every other entry is arbitrary (so reading any other entry cannot go unnoticed)
+    let fill = s.u32();
+    let mut fan = [fill; 256];
+    fan[pb[0] as usize] = spec_fan(&ids, pb[0]);
+    if pb[0] > 0 { fan[pb[0] as usize - 1] = spec_fan(&ids, pb[0] - 1); }
     let mut raw = [0u8; 20];
     raw[0] = pb[0]; raw[1] = pb[1]; raw[2] = pb[2];
     let hex_len = s.usize();
@@ -251,10 +255,12 @@ harnesses! {
     #[kani::proof] #[kani::unwind(258)] fanout_2 => h_fanout::<2, _>;
     #[kani::proof] #[kani::unwind(258)] fanout_4 => h_fanout::<4, _>;
     #[kani::proof] #[kani::unwind(258)] fanout_6 => h_fanout::<6, _>;
-    #[kani::proof] #[kani::unwind(258)] lookup_prefix_3_range => h_lookup_prefix::<3, true, _>;
-    #[kani::proof] #[kani::unwind(258)] lookup_prefix_3_norange => h_lookup_prefix::<3, false, _>;
-    #[kani::proof] #[kani::unwind(258)] lookup_prefix_4_range => h_lookup_prefix::<4, true, _>;
-    #[kani::proof] #[kani::unwind(258)] lookup_prefix_4_norange => h_lookup_prefix::<4, false, _>;
-    #[kani::proof] #[kani::unwind(258)] lookup_prefix_5_range => h_lookup_prefix::<5, true, _>;
+    #[kani::proof] #[kani::unwind(9)] lookup_prefix_2_range => h_lookup_prefix::<2, true, _>;
+    #[kani::proof] #[kani::unwind(9)] lookup_prefix_2_norange => h_lookup_prefix::<2, false, _>;
+    #[kani::proof] #[kani::unwind(9)] lookup_prefix_3_range => h_lookup_prefix::<3, true, _>;
+    #[kani::proof] #[kani::unwind(9)] lookup_prefix_3_norange => h_lookup_prefix::<3, false, _>;
+    #[kani::proof] #[kani::unwind(9)] lookup_prefix_4_range => h_lookup_prefix::<4, true, _>;
+    #[kani::proof] #[kani::unwind(9)] lookup_prefix_4_norange => h_lookup_prefix::<4, false, _>;
+    #[kani::proof] #[kani::unwind(9)] lookup_prefix_5_range => h_lookup_prefix::<5, true, _>;
 }
 replay_test!();
